@@ -113,6 +113,24 @@ return ok
                          "Value.greater_than(b) | Value.less_than(5)", leaf_beh))
     out.append(pair_case("c14.comb.nested", ii, ipre, "(Value.greater_than(a) & Value.less_than(5)) | Value.equal_to(7)",
                          "Value.equal_to(7) | (Value.less_than(5) & Value.greater_than(b))", leaf_beh))
+    # ---- three leaves under two different operators: re-grouping / re-distributing the leaves gives a different predicate
+    iii = [("a", "int"), ("b", "int"), ("c", "int"), ("u", U)]
+    iiipre = ["I64(a, b, c)"] + ipre[1:]
+    SYM = {"and": "&", "or": "|", "xor": "^"}
+    for o1 in SYM:
+        for o2 in SYM:
+            if o1 == o2:
+                continue
+            P_, Q_, R_ = "Value.greater_than(a)", "Value.less_than(b)", "Value.equal_to(c)"
+            out.append(pair_case(f"c14.comb.regroup.{o1}.{o2}.swap_leaves", iii, iiipre, f"({P_} {SYM[o1]} {Q_}) {SYM[o2]} {R_}",
+                                 f"({P_} {SYM[o1]} {R_}) {SYM[o2]} {Q_}", leaf_beh))
+            out.append(pair_case(f"c14.comb.regroup.{o1}.{o2}.reassociate", iii, iiipre, f"({P_} {SYM[o1]} {Q_}) {SYM[o2]} {R_}",
+                                 f"{P_} {SYM[o1]} ({Q_} {SYM[o2]} {R_})", leaf_beh))
+    out.append(pair_case("c14.comb.regroup.in_part", iii, iiipre, "ListValue(value=(Value.greater_than(a) & Value.less_than(b)) | Value.equal_to(c))",
+                         "ListValue(value=(Value.greater_than(a) & Value.equal_to(c)) | Value.less_than(b))", "OBJ.filter([u, 0, -5, 7]).keys"))
+    out.append(pair_case("c14.comb.regroup.in_rule", iii, iiipre, "Rule(('xs', ListValue()), (Value.greater_than(a) | Value.less_than(b)) & Value.equal_to(c))",
+                         "Rule(('xs', ListValue()), (Value.greater_than(a) | Value.equal_to(c)) & Value.less_than(b))",
+                         "summarize_test(OBJ.test({'xs': [u, 0, -5, 7]}))", stubs=["sym_repr"]))
     # ---- parts
     mdoc = "{'k': u, 0: 1, 1: 'v', True: 2}" if False else "{'k': u, 0: 1, 1: 'v'}"
     part_beh_m = f"OBJ.filter({mdoc}).keys"
